@@ -286,8 +286,10 @@ def run(ctx):
         while len(meta["time"]) < (lead[0] if lead else 1):
             meta["time"].append("2021-04-%02dT00:00:00" % (len(meta["time"]) + 1))
         method, sm, mv = rng.choice(VARIANTS)
-        case = {"op": "spec", "method": method, "sm": sm, "n": n, "shape": list(shape), "f": fl(f), "e": fl(e),
+        case = {"op": "spec", "method": method, "sm": sm, "n": n, "ntype": rng.choice(["int", "int", "int64", "int32"]),
+                "shape": list(shape), "f": fl(f), "e": fl(e),
                 "a1": fl(cols[0]), "b1": fl(cols[1]), "a2": fl(cols[2]), "b2": fl(cols[3]), "meta": meta}
+        meta["number_of_directions_type"] = case["ntype"]
         i, j = add(case, [])
         post.append(("spec", i, j, method, sm, n, shape, f, e, ent, meta))
 
